@@ -3,7 +3,7 @@
  (C) RdbFile.tla: the loader's opcode loop against the contract (one record per key in file order with the
      database selected and the expiry / idle / freq opcodes seen since the previous key; Lua aux -> script
      record; other metadata skipped without effect; chunked hash -> consecutive records), model-checked
-     for every operation sequence up to length 4 (quick) / 5 (thorough).
+     for every operation sequence up to length 4 (quick: 123 k states) / 5 (thorough: 2.0 M states).
  (A/B) TLC-simulated operation sequences are concretised by the harness's INDEPENDENT RDB writer (format
      versions 3..9; every value type and compact encoding incl. LZF, all ziplist entry encodings, intsets,
      zipmaps, quicklists, streams with consumer groups and 64-bit id forms, module-aux blocks with 64-bit
@@ -32,7 +32,7 @@ def run(tier, seed, replay=None):
     with vlib.Scratch(PID) as sc:
         vlib.stage_specs(sc)
         open(sc.path("RdbFile_t.cfg"), "w").write(open(sc.path("RdbFile.cfg")).read().replace("MaxOps = 4", "MaxOps = 5"))
-        mc = vlib.tlc(sc, "RdbFile", "RdbFile_t.cfg" if thorough else "RdbFile.cfg", workers=8, timeout=3000)
+        mc = vlib.tlc(sc, "RdbFile", "RdbFile_t.cfg" if thorough else "RdbFile.cfg", workers=8, timeout=3000, extra=["-maxSetSize", "3000000"])
         if mc.rc != 0:
             raise Infra("RdbFile model check failed (rc=%s %s)\n%s" % (mc.rc, mc.violated, mc.out[-2500:]))
         # operation sequences of realistic length (the model check above is exhaustive up to length 4-5; longer
